@@ -197,12 +197,12 @@ find_files(ldb_repair_t *rep) {
     if (!ldb_parse_filename(&type, &number, filename))
       continue;
 
+    if (number + 1 > rep->next_file_number)
+      rep->next_file_number = number + 1;
+
     if (type == LDB_FILE_DESC) {
       ldb_array_push(&rep->manifests, number);
     } else {
-      if (number + 1 > rep->next_file_number)
-        rep->next_file_number = number + 1;
-
       if (type == LDB_FILE_LOG)
         ldb_array_push(&rep->logs, number);
       else if (type == LDB_FILE_TABLE)
